@@ -4,7 +4,9 @@ import (
 	"encoding/base64"
 	"encoding/hex"
 	"net"
+	"sort"
 	"strings"
+	"sync"
 	"sync/atomic"
 	"time"
 
@@ -61,7 +63,7 @@ func isEvil(rr dns.RR) bool {
 	case *dns.MX:
 		return strings.HasPrefix(v.Mx, "evil.")
 	case *dns.CNAME:
-		return strings.HasPrefix(v.Target, "evil.")
+		return strings.HasPrefix(v.Target, "evil.") || strings.Contains(strings.ToLower(v.Target), ".evil.")
 	case *dns.DNAME:
 		return strings.HasPrefix(v.Target, "evil.")
 	case *dns.NS:
@@ -246,8 +248,13 @@ type caseCtx struct {
 	other    *zm.Zone // a sibling
 	attacker *zm.Zone // throw-away zone with the same apex/algorithm as z (attacker's key)
 	qname    string
-	applied  atomic.Int64
-	byRole   [5]atomic.Int64
+	qtype    uint16 // the client's question type (0 = not recorded)
+	// variant selects the shape of a kind that has several (forgemix.go)
+	variant int
+	notesMu sync.Mutex
+	notes   map[string]bool // what the forged responses of this case contained
+	applied atomic.Int64
+	byRole  [5]atomic.Int64
 	// window[role]: responses sent whose only defect is the RRSIG window
 	window [5]atomic.Int64
 	// parent-owned denial forgeries (denial.go): genuine proof records kept
@@ -256,6 +263,28 @@ type caseCtx struct {
 	pdMixed, pdReplaced    atomic.Int64
 	pdSharedNX, pdSharedND atomic.Int64
 	pdOtherNX, pdOtherND   atomic.Int64
+}
+
+// note records a fact about a forged response that was handed to the server
+// for sending; execute turns the notes of an observed case into counters.
+func (c *caseCtx) note(s string) {
+	c.notesMu.Lock()
+	if c.notes == nil {
+		c.notes = map[string]bool{}
+	}
+	c.notes[s] = true
+	c.notesMu.Unlock()
+}
+
+func (c *caseCtx) takeNotes() []string {
+	c.notesMu.Lock()
+	defer c.notesMu.Unlock()
+	var out []string
+	for k := range c.notes {
+		out = append(out, k)
+	}
+	sort.Strings(out)
+	return out
 }
 
 func roleIdx(r string) int {
@@ -291,6 +320,13 @@ type tamperKind struct {
 	// ZoneTogether: a zone-side case scripts ALL ZoneRoles at once (the
 	// position is recorded as "multi").
 	ZoneTogether bool
+	// AnswerShapes, when set, lists the question shapes whose answer-role
+	// response the kind applies to (default: every positive shape).
+	AnswerShapes map[string]bool
+	// NVariants > 0: the kind has that many shapes; caseCtx.variant selects one
+	// and VariantName spells it as comma-separated dimension=value pairs.
+	NVariants   int
+	VariantName func(v int) string
 	// Needs gates applicability.
 	Needs func(c *caseCtx, q QuerySpec) bool
 	// Apply mutates m (a private copy of the honest response) and reports
